@@ -180,7 +180,9 @@ fn gen_case(r: &mut Rng, smoke: bool) -> Case {
     let kac = 1 + r.below(4) as u32;
     let life = 3 * kac + r.below(6) as u32;
     let ivl8 = *r.pick(&[800u32, 8000, 1, 801, 2400]);
-    let samp8 = *r.pick(&[-8i64, 800, 8000, 801, 4000]);
+    // the server enforces only a minimum: a client may ask for an interval of 1e15 ms (longer than the clock's
+    // range), 1e16 ms (more microseconds than an i64 holds) or 2^60 ms
+    let samp8 = if r.chance(1, 8) { *r.pick(&[8_000_000_000_000_000i64, 80_000_000_000_000_000, i64::MAX, 8 * 86_400_000 * 366 * 9000]) } else { *r.pick(&[-8i64, 800, 8000, 801, 4000]) };
     let t0 = match r.below(6) { 0 => 0, 1 => ENDTIMES_NS - 3600 * SEC, _ => Y2024_NS + r.below(1000) as i128 * MS };
     let n = 3 + r.below(25) as usize;
     let mut now = t0;
@@ -261,6 +263,13 @@ impl Property for P {
         // item that follows the publishing interval, zero server timeout
         v.push(Case { smoke: false, prt: 0, kac: 1, life: 3, ivl8: 800, samp8: -8, t0: b,
             ops: vec![Op::Tick(b), Op::Enq(t(b), 0, b), Op::Expire(b), Op::Expire(b + 1), Op::Tick(b + 100 * MS), Op::Tick(b + 50 * MS), Op::Tick(b + 200 * MS)] });
+        // sampling intervals no clock can ever reach: the item is simply never due again, at either end of the clock
+        for samp8 in [8_000_000_000_000_000i64, 80_000_000_000_000_000, i64::MAX] {
+            v.push(Case { smoke: false, prt: 30000, kac: 3, life: 9, ivl8: 8000, samp8, t0: b,
+                ops: vec![Op::Tick(b), Op::Tick(b + SEC), Op::Tick(ENDTIMES_NS), Op::Tick(0), Op::Tick(b + 2 * SEC)] });
+            v.push(Case { smoke: true, prt: 30000, kac: 3, life: 9, ivl8: 8000, samp8, t0: b,
+                ops: vec![Op::Tick(b), Op::Tick(b + SEC), Op::Tick(ENDTIMES_NS), Op::Tick(0), Op::Tick(b + 2 * SEC)] });
+        }
         // the same witnesses on the real data path
         for i in 0..3 { let mut c = v[i].clone(); c.smoke = true; v.push(c); }
         v
